@@ -4,6 +4,7 @@ import ImathVerif.Lemmas.FixedArrayInv
 import ImathVerif.Lemmas.FixedArrayInplace
 import ImathVerif.Lemmas.StringTableLemmas
 import ImathVerif.Lemmas.FixedArray2DLemmas
+import ImathVerif.Lemmas.FixedArray2DWrite
 import ImathVerif.Lemmas.FixedVArrayLemmas
 import ImathVerif.Model.FixedArrayWitness
 import ImathVerif.Lemmas.BufferProtocolLemmas
@@ -902,6 +903,16 @@ theorem array2d_getslice_forward_refines {h : Heap} {v : View2D} (w : v.WF (shap
 
 theorem array2d_forward_slices_accepted {n : Nat} (hn : (n : Int) ≤ PY_SSIZE_T_MAX) {a b c : Option Int}
     (hpos : 0 < c.getD 1) : ∃ s, extract2D n (.slice a b c) = .ok s := extract2D_forward_ok hn hpos
+
+/-- `a[i, j] = x`, ints of any sign: exactly `nested[j][i] = x`; no other cell changes.
+    `Injective`: distinct `(i,j)` are distinct cells — true for every array made from Python (`alloc2D_Injective`) -/
+theorem array2d_setitem_int_refines {h : Heap} {v : View2D} (w : v.WF (shape h)) (hinj : v.Injective) {i j : Int}
+    {ci cj : Nat} (hi : canonicalIndex v.lenX i = .ok ci) (hj : canonicalIndex v.lenY j = .ok cj) (x : Int) :
+    ∃ h', setitemScalar2D h v (.int i) (.int j) x = .ok h' ∧ shape h' = shape h ∧ Frame v.buf h h' ∧
+      v.toNested h' = (v.toNested h).set cj (((v.toNested h).getD cj []).set ci x) :=
+  setitemScalar2D_int_refines w hinj hi hj x
+
+example : (alloc2D [] 3 2 [1, 2, 3, 4, 5, 6]).2.Injective := alloc2D_Injective _ _ _ _
 
 /-- `m[i]`: a writable view on row `i` (same allocation), reading `nested[i]`; `IndexError` as for a list -/
 theorem matrix_row_refines {h : Heap} {m : MatView} (w : m.WF (shape h)) (i : Int) :
